@@ -137,23 +137,51 @@ def potential_for(dirs, qv):
     return (q * (np.pi / 2) / np.einsum("ij,ij->i", d, d))[:, None] * d
 
 
+_RAW = {}
+
+
+def raw_weights(mesh):
+    """Edge lengths, Voronoi face lengths and cell areas from the RAW triangulation (mesh.sites, mesh.elements) alone;
+    mesh.edge_mesh.edges is only the index map of the edges.  Face lengths: distance between the circumcentres of the two
+    triangles sharing the edge, boundary edge: circumcentre to edge midpoint (runobs.raw_geometry).  Cell areas: circumcentric
+    construction (refops.geometry) at the sites where it IS the Voronoi cell clipped to the film (well-centred); elsewhere
+    the construction says nothing and the mesh's own area is taken.  Also counts the edges opposite an obtuse angle."""
+    key = id(mesh)
+    if key not in _RAW:
+        from . import refops, runobs
+
+        sites, tri = np.asarray(mesh.sites, dtype=float), np.asarray(mesh.elements)
+        g = runobs.raw_geometry(sites, tri, mesh.edge_mesh.edges)
+        r = refops.geometry(sites, tri)
+        area = np.where(r["well_centred"], r["area"], np.asarray(mesh.areas, dtype=float))
+        obtuse = 0
+        for a in range(3):
+            u = sites[tri[:, a]] - sites[tri[:, (a + 2) % 3]]
+            v = sites[tri[:, (a + 1) % 3]] - sites[tri[:, (a + 2) % 3]]
+            obtuse += int(np.sum(np.einsum("ij,ij->i", u, v) < -1e-12))
+        _RAW[key] = dict(mesh=mesh, length=g["edge_lengths"], dual=g["dual"], area=area, obtuse=obtuse,
+                         well_centred=int(r["well_centred"].sum()))
+    return _RAW[key]
+
+
 def reference_operators(mesh, A, fixed, fix_psi):
-    """Covariant gradient and Laplacian assembled by the harness (dense) for link exponents A (one vector per edge),
-    first principles for the link variables: U_e = exp(-i A_e . (r_j - r_i)) with the edge vector and length taken
-    from the RAW site coordinates mesh.sites (never EdgeMesh.directions / normalized_directions / edge_lengths).
-    Only the topology (edge list) and the Voronoi data (dual edge lengths, cell areas: C07's subject) are read."""
+    """Covariant gradient and Laplacian assembled by the harness (dense) for link exponents A (one vector per edge) from
+    first principles: U_e = exp(-i A_e . (r_j - r_i)), edge lengths, Voronoi face lengths and cell areas all from the RAW
+    site coordinates and triangles (raw_weights) - never EdgeMesh.directions / edge_lengths / dual_edge_lengths.
+    Only the edge list (which pair, which orientation, which row) is read from the mesh."""
     sites = np.asarray(mesh.sites, dtype=float)
     em = mesh.edge_mesh
     e0, e1 = np.asarray(em.edges)[:, 0], np.asarray(em.edges)[:, 1]
     d = sites[e1] - sites[e0]
-    ln = np.linalg.norm(d, axis=1)
+    rw = raw_weights(mesh)
+    ln = rw["length"]
     U = np.exp(-1j * np.einsum("ij,ij->i", np.asarray(A, dtype=float), d))
     n, ne = len(sites), len(e0)
     G = np.zeros((ne, n), dtype=complex)
     G[np.arange(ne), e1] = U / ln
     G[np.arange(ne), e0] = -1.0 / ln
-    w = np.asarray(em.dual_edge_lengths, dtype=float) / ln
-    a = np.asarray(mesh.areas, dtype=float)
+    w = rw["dual"] / ln
+    a = rw["area"]
     L = np.zeros((n, n), dtype=complex)
     np.add.at(L, (e0, e1), w * U / a[e0])
     np.add.at(L, (e1, e0), w * np.conj(U) / a[e1])
@@ -840,6 +868,7 @@ def natural_run(tdgl, a, tmp):
                 seed=("other" if seed_cls == "seed" else "configured"), form=form,
                 v0=(_psi_class(v0) if form == "assign" else vcls), exact=False, driven=bool(a.get("field") or a.get("current")), ev=ev,
                 info=dict(sites=nsites, terminal_sites=int(len(tsites)), xi=float(dev.layer.coherence_length), remeshed=remeshed,
+                          edges_opposite_obtuse_angle=raw_weights(dev.mesh)["obtuse"], well_centred_sites=raw_weights(dev.mesh)["well_centred"],
                           ambiguous_sites=int(nsites - len(tsites) - len(nonterm)), max_step_mismatch=st["max_step_mismatch"],
                           later_iterations_with_new_induced=st["later_iter"], frames=len(classes), steps=nfin,
                           max_relative_staleness=st["max_stale"], first_stale_step=st["first_stale"],
